@@ -432,7 +432,7 @@ func handleUIDCopy(deps ServerDeps, conn net.Conn, tag string, parts []string, s
 
 		// Prepare flags for copy - preserve existing flags and add \Recent
 		copyFlags := flags
-		if !parseFlagsToSet(copyFlags)[`\Recent`] {
+		if !hasFlag(copyFlags, `\Recent`) {
 			if copyFlags == "" {
 				copyFlags = `\Recent`
 			} else {
@@ -469,6 +469,17 @@ func handleUIDCopy(deps ServerDeps, conn net.Conn, tag string, parts []string, s
 	}
 
 	deps.SendResponse(conn, fmt.Sprintf("%s OK UID COPY completed", tag))
+}
+
+// hasFlag reports whether a space-separated flags string contains the given flag
+// (flag names are case-insensitive, RFC 3501 section 9)
+func hasFlag(flags string, flag string) bool {
+	for _, f := range strings.Fields(flags) {
+		if strings.EqualFold(f, flag) {
+			return true
+		}
+	}
+	return false
 }
 
 // parseFlagsToSet converts a space-separated flags string into a set (map)
@@ -551,7 +562,7 @@ func handleUIDExpunge(deps ServerDeps, conn net.Conn, tag string, parts []string
 	query := `
 		SELECT id, uid FROM message_mailbox
 		WHERE mailbox_id = ? AND uid IN (` + strings.Join(placeholders, ",") + `)
-		AND instr(' ' || flags || ' ', ' \Deleted ') > 0
+		AND instr(' ' || lower(flags) || ' ', ' \deleted ') > 0
 		ORDER BY uid ASC
 	`
 
